@@ -16,7 +16,8 @@ Request 1 (T-step):  `<slots> | <op> <op> …`
     drops / polls run and whether drops happen by a contained unwinding panic — identity in the model · `dfg` drop a free flush guard · `ddg` drop a force-flush guard ·
     `open:<i>:<w|d>:<v0>` (`w` consumes a free flush guard) · `delay:<i>` (`delay_flush`, consumes a free
     flush guard) · `wb:<i>` first poll of `wait_for_data` · `wp` poll again · `wc` drop the future ·
-    `gm:<i>:<v>` mutate through the slot guard · `gd:<i>` drop the slot guard · `gc:<i>` `parent_is_closed()`
+    `gm:<i>:<v>` mutate through the slot guard · `gd:<i>` drop the slot guard · `gc:<i>` `parent_is_closed()` ·
+    `gdg:<i>` gated close (see `gdgOp`)
   micro ops (one `step` each, no drain): `!<event>` e.g. `!refDrop`, `!pDecV`, `!gSend:0`, and `!drain`.
 Reply: `<res>/<appended so far>` per op, then ` | ` and the appended entries `plain:hits:s0,s1,…` (`n` = absent).
   res: `-` · `some`/`none` (open) · `R<v>`/`Rn`/`P` (wait) · `t`/`f` (gc)
@@ -144,8 +145,36 @@ def parseEv (f : List String) : Option Ev :=
   | ["emit"] => some .emit
   | _ => none
 
+/-- apply a macro op `n` times -/
+def repeatMacro (f : List String) : Nat → St → Option St
+  | 0, s => some s
+  | n + 1, s => match macroOp s f with
+    | some (s', _) => repeatMacro f n s'
+    | none => none
+
+/-- `gdg:<i>` gated close: slot guard `i` starts to drop, and while its value's `close()` is parked (before the send:
+the guard has done nothing the model can see yet) every owning reference and then `nfree` free flush guards are dropped,
+each to completion; then the guard's drop goes on (`gSend`, `gRelease`).  Result `m<k>`: `k` entries had been appended
+when the guard's drop resumed. -/
+def gdgOp (s : St) (i : Nat) (nfree : Nat) : Option (St × String) :=
+  match s.slots[i]? with
+  | none => none
+  | some sl =>
+    if sl.g = .live ∧ s.borrowed.isNone then
+      match repeatMacro ["dref"] s.hS s with
+      | none => none
+      | some s1 =>
+        match repeatMacro ["dfg"] nfree s1 with
+        | none => none
+        | some s2 => (macroOp s2 ["gd", toString i]).map fun (s3, _) => (s3, s!"m{s2.appended.length}")
+    else none
+
 def oneOp (s : St) (tok : String) : Option (St × String) :=
-  if tok.startsWith "!" then
+  if tok.startsWith "gdg:" then
+    match (tok.drop 4).toString.toNat? with
+    | some i => gdgOp s i (s.fgLive - held s.slots)
+    | none => none
+  else if tok.startsWith "!" then
     let f := (tok.drop 1).toString.splitOn ":"
     if f == ["drain"] then some (drain fuel s, "-")
     else match parseEv f with
@@ -192,6 +221,8 @@ def oneOpX (x : StX) (tok : String) : Option (StX × String) :=
   | ["ogm", v] => if x.orph.isEmpty then none else v.toNat?.bind fun v => finX x [.oGmut last v]
   | ["ogd"] => if x.orph.isEmpty then none else finX x [.oSend last, .oRelease last]
   | ["ogdp"] => if x.orph.isEmpty then none else finX x [.oSendFail last, .oRelease last]
+  | ["gdg", i] => i.toNat?.bind fun i =>
+    (gdgOp x.b i (x.b.fgLive - held x.b.slots - heldO x.orph)).map fun (b', r) => ({ x with b := b' }, r)
   | f =>
     let needs := match f with
       | ["dfg"] => true
